@@ -5,13 +5,17 @@
 (*                                                                         *)
 (* Models p2p/protocol/circuitv2/relay/{relay.go, constraints.go,          *)
 (* resources.go, acl.go} AS THE CODE IS: one action per request handled /  *)
-(* notification / timer.  Quirks kept on purpose:                          *)
-(*   - constraints.Reserve removes the peer's old entry BEFORE it checks   *)
-(*     the caps, so a refused refresh un-counts a reservation that stays   *)
-(*     live in Relay.rsvp (invariant Caps is EXPECTED to fail);            *)
-(*   - Relay.disconnected drops the reservation without untagging          *)
-(*     "relay-reservation" (invariant TagsRollback is EXPECTED to fail     *)
-(*     when the peer keeps a limited connection);                          *)
+(* notification / timer.  As of /repo 6cf8d1a and 6390169:                 *)
+(*   - constraints.Reserve checks the caps against the OTHER peers'        *)
+(*     entries and replaces the peer's own entry only once the new         *)
+(*     reservation is accepted: a refused refresh leaves everything as it  *)
+(*     was (expiry, IP/ASN attribution); only expired entries are cleaned  *)
+(*     (before the fix the entry was removed first and a refused refresh   *)
+(*     un-counted a live reservation: invariant Caps failed);              *)
+(*   - Relay.disconnected untags "relay-reservation" when it drops a       *)
+(*     reservation (before the fix the tag stayed while the peer kept a    *)
+(*     limited connection: invariant TagsRollback failed).                 *)
+(* Quirks kept on purpose:                                                 *)
 (*   - handleConnect looks a reservation up without looking at its expiry  *)
 (*     (an expired reservation serves until the next collection);          *)
 (*   - a reservation whose response cannot be written stays.               *)
@@ -140,7 +144,7 @@ LinkUp(l) ==
 \* soon as the relay touches the stream: at once when it is blocked reading it; an attempt still in the
 \* handshake whose SOURCE connection closed goes on until the destination answers), Relay.disconnected
 \* runs (reservation dropped unless the peer is still Connected, i.e. has another non-limited
-\* connection; NO untag), the conn manager forgets the peer - and with it every tag - when its last
+\* connection; the reservation tag goes with it), the conn manager forgets the peer - and with it every tag - when its last
 \* connection is gone.
 LinkDown(l) ==
   /\ "updown" \in Features
@@ -161,7 +165,7 @@ LinkDown(l) ==
         /\ gl' = IF drop THEN [gl EXCEPT ![p] = "-"] ELSE gl
         /\ circ' = CircAfter(E)
         /\ tagH' = IF gone THEN [th EXCEPT ![p] = FALSE] ELSE th
-        /\ tagR' = IF gone THEN [tagR EXCEPT ![p] = FALSE] ELSE tagR
+        /\ tagR' = IF gone \/ (drop /\ rsvp[p] # None) THEN [tagR EXCEPT ![p] = FALSE] ELSE tagR
         /\ svc' = [s1 EXCEPT !.msgs = @ - Cardinality(A), !.sin = @ - Cardinality(A)]
         /\ att' = [c \in Slots |-> IF c \in E THEN Free ELSE IF c \in A THEN [att[c] EXCEPT !.ab = "conn"] ELSE att[c]]
         /\ op' = [name |-> "down", l |-> l, ended |-> E, cut |-> A, dropped |-> (drop /\ rsvp[p] # None),
@@ -173,7 +177,7 @@ LinkDown(l) ==
 ReserveWhy(l) ==
   LET p == LinkPeer[l]
       a == LinkAddr[l]
-      c1 == ConsDrop(ConsClean(cons), p)
+      c1 == ConsDrop(ConsClean(cons), p)      \* the other peers' unexpired entries
   IN IF a = "relay" THEN "relayed"
      ELSE IF l \in DenyReserve THEN "acl"
      ELSE IF closed THEN "closed"
@@ -192,15 +196,16 @@ Reserve(l, ab) ==
   /\ LET p == LinkPeer[l]
          a == LinkAddr[l]
          why == ReserveWhy(l)
-         c1 == ConsDrop(ConsClean(cons), p)
+         c0 == ConsClean(cons)
+         c1 == ConsDrop(c0, p)
      IN /\ ab => why \notin {"relayed"}
         /\ CASE why \in {"relayed", "acl", "closed"} ->
                   /\ op' = [name |-> "reserve", l |-> l, ab |-> ab, why |-> why,
                             status |-> IF ab THEN "none" ELSE "PERMISSION_DENIED", live |-> rsvp[p] # None]
                   /\ UNCHANGED <<rsvp, cons, tagR, gl>>
              [] why \in {"total", "noip", "ip", "asn"} ->
-                  \* the quirk: the entry of p is gone from the constraints, rsvp[p] is not touched
-                  /\ cons' = c1
+                  \* refused: only the expired entries are gone; the peer's own entry and rsvp[p] stay
+                  /\ cons' = c0
                   /\ op' = [name |-> "reserve", l |-> l, ab |-> ab, why |-> why,
                             status |-> IF ab THEN "none" ELSE "RESERVATION_REFUSED", live |-> rsvp[p] # None]
                   /\ UNCHANGED <<rsvp, tagR, gl>>
@@ -397,7 +402,7 @@ LiveSet == {p \in Peers : Live(p)}
 AddrOf(p) == IF gl[p] = "-" THEN "-" ELSE LinkAddr[gl[p]]
 
 \* reservations are granted only within the total, per-IP and per-ASN caps.
-\* EXPECTED TO FAIL (DESIGN section 9 item 7): a refused refresh un-counts a live reservation.
+\* (Failed before /repo 6cf8d1a - DESIGN section 9 item 7: a refused refresh un-counted a live reservation.)
 Caps ==
   /\ Cardinality(LiveSet) <= MaxRes
   /\ \A l \in Links : IsIP(LinkAddr[l]) =>
@@ -412,8 +417,9 @@ CapsCounted ==
      /\ \A l \in Links : IsIP(LinkAddr[l]) =>
           /\ ConsIP(c, LinkAddr[l]) <= MaxPerIP
           /\ ASNOf[LinkAddr[l]] # 0 => ConsASN(c, ASNOf[LinkAddr[l]]) <= MaxPerASN
-\* every counted entry is a live reservation with the same expiry (the converse is item 7)
+\* every counted entry is a live reservation with the same expiry, and conversely (item 7)
 CountedAreLive == ~closed => \A p \in Peers : cons[p].rem # None /\ cons[p].rem >= 0 => rsvp[p] = cons[p].rem
+LiveAreCounted == \A p \in Peers : Live(p) => cons[p].rem = rsvp[p] /\ cons[p].ip = AddrOf(p)
 
 \* a reservation exists only for a peer that is directly connected, was granted over a direct link
 \* the ACL accepts, and is gone at the first collection past its expiry
@@ -440,7 +446,7 @@ Rollback ==
   /\ svc = [spans |-> SumC(Busy, "spans"), msgs |-> SumC(Busy, "msgs"), sin |-> SumC(Busy, "sin"), sout |-> SumC(Busy, "sout")]
 
 \* the reservation tag goes with the reservation.
-\* EXPECTED TO FAIL (DESIGN section 9 item 8): disconnected() does not untag.
+\* (Failed before /repo 6390169 - DESIGN section 9 item 8: disconnected() did not untag.)
 TagsRollback == \A p \in Peers : tagR[p] => rsvp[p] # None
 TagsWhileReserved == \A p \in Peers : rsvp[p] # None => tagR[p]
 
